@@ -10,3 +10,10 @@ class AnalysisError(Exception):
 
 class Unsupported(AnalysisError):
     """A construct outside the subset the engine models."""
+
+
+class FormNotRecognised(AnalysisError):
+    """A rule that reasons over one particular *shape* of the code (e.g. a scanner that re-slices its buffer) met another
+    shape.  If the rule names fallback rules that decide the same clauses independently of the shape (concrete
+    evaluation against a reference) and those ran and held, the rule is recorded as deferred instead of failing the
+    run; without such a fallback this is an ordinary analysis error."""
